@@ -58,7 +58,9 @@ func (a *AddPartitionsToTxnResponse) decode(pd packetDecoder, version int16) (er
 			return err
 		}
 
-		a.Errors[topic] = make([]*PartitionError, m)
+		if m >= 0 {
+			a.Errors[topic] = make([]*PartitionError, m)
+		}
 
 		for j := 0; j < m; j++ {
 			a.Errors[topic][j] = new(PartitionError)
